@@ -5,6 +5,7 @@
 (* Every state is a script (each prefix of a session is itself a session    *)
 (* that ends by end-of-input), printed as one replay case.                  *)
 EXTENDS LspProtocol, Json
+CONSTANT ReqTail    \* > 0: the last ReqTail messages are requests and no earlier one is (bursts of notifications)
 VARIABLES script, gg, outs
 gvars == <<script, gg, outs>>
 
@@ -19,8 +20,9 @@ GInit == script = <<>> /\ outs = <<>>
          /\ gg = (IF StartMain THEN [G0 EXCEPT !.phase = "main"] ELSE G0)
 GNext == /\ Len(script) < MaxMsgs /\ gg.phase # "exited"
          /\ \E m \in Messages :
-              LET r == ExpStep(gg, m, Len(script) + 1) IN
-              /\ script' = Append(script, m) /\ gg' = r.g /\ outs' = outs \o r.out
+              /\ ReqTail > 0 => ((Len(script) >= MaxMsgs - ReqTail) <=> m.t = "req")
+              /\ LET r == ExpStep(gg, m, Len(script) + 1) IN
+                 /\ script' = Append(script, m) /\ gg' = r.g /\ outs' = outs \o r.out
 GSpec == GInit /\ [][GNext]_gvars
 
 Case == [script |-> script, out |-> outs, exit |-> gg.exit, diagcap |-> DiagCap, startmain |-> StartMain]
@@ -28,6 +30,7 @@ EmitInv == PrintT(<<"SCRIPT", ToJson(Case)>>)
 \* simulation: only complete (long) scripts
 EmitFinal == Len(script) = MaxMsgs => PrintT(<<"SCRIPT", ToJson(Case)>>)
 LoadAlphabet == {"open", "change", "close", "req", "unk", "unote"}
+BurstAlphabet == {"open", "change", "req"}
 
 \* sanity of the sequential semantics itself
 RespIds == SelectSeq(outs, LAMBDA o : o.k = "resp")
